@@ -72,6 +72,33 @@ func genTree(r *prng.R) tree {
 	if r.Chance(20) {
 		t["f/"+prng.Pick(r, nestedDirs)+"z.yaml"] = fmt.Sprintf("v%d", r.Range(1, 3))
 	}
+	// configuration files that are symbolic links (sites-enabled style, mounted volumes): to a file outside
+	// or inside the configuration directory, to nothing, to a directory. The init line carries the kind
+	// after the token (`v1~out`); everything else in the generator sees only the token.
+	if r.Chance(30) {
+		switch r.Intn(6) {
+		case 0, 1:
+			for _, l := range []string{"f/a.yaml", "f/b.yaml", "q/qa.yaml", "p/pa.yaml"} {
+				if tok, ok := t[l]; ok && r.Chance(60) {
+					t[l] = tok + "~out"
+				}
+			}
+		case 2, 3:
+			for _, l := range []string{"f/a.yaml", "f/c.yaml", "q/qa.yaml", "p/pa.yaml"} {
+				if tok, ok := t[l]; ok && r.Chance(60) {
+					t[l[:2]+"lnk/"+l[2:]] = tok
+					t[l] = tok + "~in"
+				}
+			}
+		case 4:
+			t[prng.Pick(r, []string{"f/", "q/", "p/"})+"gone.lnk"] = "~dangling"
+			if tok, ok := t["f/b.yaml"]; ok {
+				t["f/b.yaml"] = tok + "~out"
+			}
+		default:
+			t[prng.Pick(r, []string{"f/", "q/", "p/"})+"dirl.lnk"] = "~dir"
+		}
+	}
 	// hidden files and directories (.gitkeep, the ..data of a mounted volume, .hidden/x.yaml): the loaders
 	// ignore them, clean-up / backup / restore treat them like any other file. Dot names sort before the
 	// ordinary ones in a directory walk; `zz/.keep` comes after them.
@@ -170,8 +197,14 @@ func genPayload(r *prng.R, t tree, shape int) []item {
 		set("um", prng.Pick(r, []string{"bad", "bad", "xjunk"}))
 	case shNoop:
 		items = nil
-		for l, tok := range t {
-			if l != "dm" && r.Chance(70) {
+		ls := make([]string, 0, len(t))
+		for l := range t {
+			ls = append(ls, l)
+		}
+		sort.Strings(ls)
+		for _, l := range ls {
+			tok := strings.Split(t[l], "~")[0] // a linked entry: the token read through the link
+			if l != "dm" && tok != "" && r.Chance(70) {
 				items = append(items, item{l, tok})
 			}
 		}
@@ -211,10 +244,15 @@ func faultPositions(r *prng.R, ep string, t tree, items []item) []string {
 	if ep == "apply_flows" {
 		fs = append(fs, "clean:g", "clean:um")
 	}
+	// (an un-removable link to a file INSIDE the tree would make the write land in that other tracked file:
+	// aliasing the model does not carry; such paths get no unlink fault)
+	aliased := func(l string) bool { return strings.HasSuffix(t[l], "~in") }
 	for _, it := range items {
 		fs = append(fs, "save:"+it.logical)
 		// the file cannot be unlinked, create/write work: content must still be exactly the new bytes
-		fs = append(fs, "sunlink:"+it.logical)
+		if !aliased(it.logical) {
+			fs = append(fs, "sunlink:"+it.logical)
+		}
 	}
 	// a store failing inside Restore(): the files it writes back are the payload's changed files
 	// (and, for /apply_flows, everything the clean-up removed)
@@ -236,7 +274,9 @@ func faultPositions(r *prng.R, ep string, t tree, items []item) []string {
 	sort.Strings(keys)
 	for _, k := range keys {
 		fs = append(fs, "rstore:"+k+" rpos="+prng.Pick(r, []string{"first", "last"}))
-		fs = append(fs, "runlink:"+k) // the same, inside Restore(): not a failed restore
+		if !aliased(k) {
+			fs = append(fs, "runlink:"+k) // the same, inside Restore(): not a failed restore
+		}
 	}
 	return fs
 }
